@@ -1,0 +1,16 @@
+//go:build verif
+
+package rtpsender
+
+// Contracts checked by /verif/govc (see /verif/DESIGN.md). Comment-only file.
+
+// C15, sender side of the RTP <-> NTP mapping: the pair (lastRTP, lastNTP) a sender report is
+// extrapolated from is always the timestamp and the absolute time of ONE packet - the last one
+// written with PTS equal to DTS - so a report never pairs the RTP time of one packet with the
+// NTP time of another. Other packets leave the pair alone.
+//@ func (rs *Sender) ProcessPacket
+//@   opt sole-writer=Sender.lastNTP,Sender.lastRTP,Sender.firstRTPPacketSent
+//@   requires pkt != nil
+//@   ensures[C15] ptsEqualsDTS ==> rs.lastRTP == old(pkt.Timestamp) && rs.lastNTP == ntp && rs.firstRTPPacketSent
+//@   ensures[C15] !ptsEqualsDTS ==> rs.lastRTP == old(rs.lastRTP) && rs.lastNTP == old(rs.lastNTP)
+//@   modifies *
